@@ -15,5 +15,7 @@ SCHEMA = {
                   "derivative": "bool", "_dx": "real", "_is_dynamic": "bool", "_precompute": "bool", "fcn_str": "opaque", "skip_function": "arr1?"},
     "Link": {"parameter": "ref?:Parameter", "source": "ref:Compartment", "dest": "ref:Compartment", "_cache": "real"},
     "TimedLink": {"_vals": "arr2"},
-    "Population": {"comps": "list:Compartment", "links": "list:Link", "pars": "list:Parameter", "characs": "list:Characteristic"},
+    "Model": {"dt": "real", "_t_index": "int", "t": "arr1", "framework": "opaque", "_exec_order": "opaque", "pops": "list:Population", "programs_active": "bool",
+              "progset": "opaque", "program_instructions": "opaque", "_program_cache": "opaque", "_vars_by_pop": "opaque", "interactions": "opaque"},
+    "Population": {"name": "opaque", "comps": "list:Compartment", "links": "list:Link", "pars": "list:Parameter", "characs": "list:Characteristic"},
 }
